@@ -150,6 +150,8 @@ func (c *Conn) Write(p []byte) (int, error) {
 
 // Close closes this end: the peer reads EOF after draining.
 func (c *Conn) Close() error {
+	c.adopt()
+	simrt.Point("net:close", c.ID)
 	c.mu.Lock()
 	if c.closed {
 		c.mu.Unlock()
